@@ -16,11 +16,9 @@ TRUSTED = _c05.TRUSTED
 REQUIRED_THEOREMS = ['OpusProps.C02Wf.' + t for t in ('contract_is_repack_model', 'repack_run_is_contract', 'wellformed_multiframe',
                                                       'packet_pad_is_run', 'pad_contract_is_model',
                                                       'frame_packet_is_contract_output', 'wellformed_low_budget',
-                                                      'encode_wellformed_multiframe', 'encode_wellformed_single', 'encode_wellformed')]
+                                                      'encode_wellformed_multiframe', 'encode_wellformed_single', 'encode_wellformed',
+                                                      'encode_wellformed_multiframe_pad')]
 UNPROVED = [
-    'encode_wellformed_multiframe names the actual sub-packets and maxlen = repacketize_len, but the pad flag of the final '
-    'out_range_impl call is existentially quantified (the skeleton computes it as !use_vbr && dtx_count != nb_frames; which of the '
-    'two values it is, is not part of the statement)',
     'low-budget path at the level of opus_encode_native: wellformed_low_budget is stated on the ToC-only packet functions '
     'lowHdr0 / lowLens / lowRet0 / padSpec that `lowBudget` is built from, for every state in the ranges of stOk, and not re-stated as a '
     'theorem about encodeNative under lowBudgetGate (encode_wellformed covers that path for the parse / run clauses)',
